@@ -14,6 +14,7 @@ import (
 	"fmt"
 	"math/big"
 	"strings"
+	"time"
 
 	"github.com/tonkeeper/tongo/boc"
 	"github.com/tonkeeper/tongo/tl"
@@ -124,13 +125,55 @@ func anyToSx20(m tlb.Maybe[tlb.Anycast]) sx.V {
 	return sx.L(sx.N(uint64(m.Value.Depth)), sx.N(uint64(m.Value.RewritePfx)))
 }
 
-func addrFromSx20(v sx.V) tlb.MsgAddress {
+// writerBitString20 builds a bit string the way applications do: a buffer of
+// len+slack bits filled through the public writers (WriteBytes for whole
+// bytes, WriteUint for the next chunk, WriteBit for the rest).
+func writerBitString20(bits string, slack int) boc.BitString {
+	b := boc.NewBitString(len(bits) + slack)
+	i := 0
+	if len(bits)%3 != 0 {
+		nb := len(bits) / 8
+		if nb > 0 {
+			buf := make([]byte, nb)
+			for j := 0; j < nb*8; j++ {
+				if bits[j] == '1' {
+					buf[j/8] |= 0x80 >> uint(j%8)
+				}
+			}
+			if err := b.WriteBytes(buf); err != nil {
+				panic("c20: WriteBytes failed while building a value")
+			}
+			i = nb * 8
+		}
+		if rest := len(bits) - i; rest > 1 {
+			w := rest - 1
+			var v uint64
+			for j := 0; j < w; j++ {
+				v = v<<1 | uint64(bits[i+j]-'0')
+			}
+			if err := b.WriteUint(v, w); err != nil {
+				panic("c20: WriteUint failed while building a value")
+			}
+			i += w
+		}
+	}
+	for ; i < len(bits); i++ {
+		if err := b.WriteBit(bits[i] == '1'); err != nil {
+			panic("c20: WriteBit failed while building a value")
+		}
+	}
+	return b
+}
+
+func addrFromSx20(v sx.V) tlb.MsgAddress { return addrFromSxSlack20(v, 0) }
+
+func addrFromSxSlack20(v sx.V, slack int) tlb.MsgAddress {
 	var a tlb.MsgAddress
 	switch v.Head() {
 	case "none":
 		a.SumType = "AddrNone"
 	case "ext":
-		bs := bitStringFromBits(v.List[1].Bits)
+		bs := writerBitString20(v.List[1].Bits, slack)
 		a.SumType = "AddrExtern"
 		a.AddrExtern = &bs
 	case "std":
@@ -144,7 +187,7 @@ func addrFromSx20(v sx.V) tlb.MsgAddress {
 			Anycast:     anyFromSx20(v.List[1]),
 			AddrLen:     tlb.Uint9(v.List[2].U64()),
 			WorkchainId: int32(v.List[3].Int.Int64()),
-			Address:     bitStringFromBits(v.List[4].Bits),
+			Address:     writerBitString20(v.List[4].Bits, slack),
 		}
 	}
 	return a
@@ -229,13 +272,50 @@ func lookup20(fam string, arg sx.V) (ops20, bool) {
 		} else {
 			o, ok = c20Single["cell"]
 		}
+	case "bitstring":
+		// arg = free bits left in the write buffer (capacity - length)
+		slack := arg.I()
+		o, ok = mkOps20(func(v sx.V) boc.BitString { return writerBitString20(v.Bits, slack) }, func(x *boc.BitString) sx.V { return sx.Bits(bitsOf(x)) }), true
+	case "addr":
+		slack := arg.I()
+		o, ok = mkOps20(func(v sx.V) tlb.MsgAddress { return addrFromSxSlack20(v, slack) }, addrToSx20), true
 	default:
 		o, ok = c20Single[fam]
 	}
 	return o, ok
 }
 
-func execC20Print(in sx.V) sx.V {
+// every Marshal / Unmarshal runs under a watchdog: an encoder or decoder that
+// does not return becomes the outcome 'timeout (reported as json-hang-<family>)
+var c20Timeout = 5 * time.Second
+var c20Hangs int
+
+func watchdog20(f func() sx.V) sx.V {
+	ch := make(chan sx.V, 1)
+	go func() {
+		defer func() {
+			if r := recover(); r != nil {
+				ch <- sx.A("panic")
+			}
+		}()
+		ch <- f()
+	}()
+	select {
+	case v := <-ch:
+		return v
+	case <-time.After(c20Timeout):
+		c20Hangs++
+		return sx.A("timeout")
+	}
+}
+
+func execC20Print(in sx.V) sx.V { return watchdog20(func() sx.V { return execC20Print0(in) }) }
+
+func execC20Parse(in sx.V, direct bool) sx.V {
+	return watchdog20(func() sx.V { return execC20Parse0(in, direct) })
+}
+
+func execC20Print0(in sx.V) sx.V {
 	fam, arg, val := in.List[0].Atom, in.List[1], in.List[2]
 	var b []byte
 	var err error
@@ -258,7 +338,7 @@ func execC20Print(in sx.V) sx.V {
 	return sx.Bytes(b)
 }
 
-func execC20Parse(in sx.V, direct bool) sx.V {
+func execC20Parse0(in sx.V, direct bool) sx.V {
 	fam, arg, doc := in.List[0].Atom, in.List[1], in.List[2].Bytes
 	var v sx.V
 	var err error
@@ -293,6 +373,18 @@ type case20 struct {
 	excluded bool
 	// finding: stable key of a known finding this value is expected to hit
 	finding string
+}
+
+// after a few hangs the remaining cases are skipped: each one costs the
+// watchdog timeout and leaves a spinning goroutine behind
+func tooManyHangs20() bool { return c20Hangs >= 3 }
+
+func hang20(c *Ctx, kind string, in sx.V, fam string, out sx.V) bool {
+	if out.IsA("timeout") {
+		c.Fail(kind, in, "json-hang-"+fam, "the call did not return within "+c20Timeout.String())
+		return true
+	}
+	return false
 }
 
 func (k case20) in(payload sx.V) sx.V { return sx.L(sx.A(k.fam), k.arg, payload) }
@@ -405,8 +497,14 @@ func lenBucket20(n int) string {
 // then mutated documents
 func (k case20) run(c *Ctx, nMut int) {
 	r := c.R
+	if tooManyHangs20() {
+		return
+	}
 	in := k.in(k.val)
 	out := c.Emit("c20.print", in, k.class+"|print")
+	if hang20(c, "c20.print", in, k.fam, out) {
+		return
+	}
 	if out.K != sx.KBytes {
 		c.Fail("c20.print", in, "marshal-error-"+k.fam, "json.Marshal failed on a value of the domain: "+out.String())
 		return
@@ -418,6 +516,9 @@ func (k case20) run(c *Ctx, nMut int) {
 	for _, kind := range []string{"c20.parse", "c20.method"} {
 		pin := k.in(sx.Bytes(doc))
 		back := c.Emit(kind, pin, k.fam+"|back")
+		if hang20(c, kind, pin, k.fam, back) {
+			return
+		}
 		if back.String() != k.val.String() && !k.excluded {
 			key := "roundtrip-" + k.fam
 			if k.finding != "" {
@@ -446,7 +547,11 @@ func (k case20) mal(c *Ctx, kind string, doc []byte, src string) {
 	if json.Valid(doc) {
 		v = src + "-valid"
 	}
+	if tooManyHangs20() {
+		return
+	}
 	res := c.Emit(kind, pin, k.fam+"|"+v)
+	hang20(c, kind, pin, k.fam, res)
 	if res.IsA("panic") {
 		c.Fail(kind, pin, "panic-"+k.fam, "UnmarshalJSON panicked")
 	}
@@ -629,7 +734,29 @@ func genC20(c *Ctx) {
 		}
 		for i := 0; i < 20; i++ {
 			n := r.Intn(1024)
-			case20{fam: "bitstring", arg: sx.Nat(0), val: sx.Bits(randBits(r, n)), class: "bitstring|" + lenBucket20(n)}.run(c, nMut)
+			case20{fam: "bitstring", arg: sx.Nat(r.Intn(10)), val: sx.Bits(randBits(r, n)), class: "bitstring|" + lenBucket20(n)}.run(c, nMut)
+		}
+	}
+	// writer-built strings: capacity > length (the argument is the number of free
+	// bits), every (length mod 4, free bits) combination, and the cell capacity
+	// 1023 with lengths 1015..1023
+	freeCls := func(free int) string {
+		if free > 3 {
+			return "free4+"
+		}
+		return fmt.Sprintf("free%d", free)
+	}
+	for rep := 0; rep < reps; rep++ {
+		for _, n := range []int{1, 2, 3, 5, 6, 7, 9, 10, 11, 13, 254, 255, 257, 509, 510, 511, 1001, 1002, 1003} {
+			for free := 0; free <= 9; free++ {
+				case20{fam: "bitstring", arg: sx.Nat(free), val: sx.Bits(randBits(r, n)), class: "bitstring|writer|" + freeCls(free)}.run(c, 1)
+			}
+		}
+		for n := 1015; n <= 1023; n++ {
+			case20{fam: "bitstring", arg: sx.Nat(1023 - n), val: sx.Bits(randBits(r, n)), class: "bitstring|writer|" + freeCls(1023-n)}.run(c, 1)
+		}
+		for _, n := range []int{0, 1, 5, 100, 500} {
+			case20{fam: "bitstring", arg: sx.Nat(1023 - n), val: sx.Bits(randBits(r, n)), class: "bitstring|writer|" + freeCls(1023-n)}.run(c, 1)
 		}
 	}
 	fiftDocs := []string{"\"_\"", "\"0_\"", "\"8_\"", "\"4_\"", "\"c_\"", "\"C_\"", "\"A8_\"", "\"a1_\"", "\"__\"", "\"4__\"", "\"_4\"", "\"\xc4\xb0\"", "\"\xc4\xb04_\"", "\"\\u0130\"", "\"\xc4\xb0_\"", "\"4\xc4\xb0_\"", "\"\xe4\xb8\xb0\"", "\"ff\xff\"", "\"fF\"", "\"g\"", "\" f\"", "\"f \"", "f", "\"f", "\"\"f\"\"", "\"\\u0066\""}
@@ -659,7 +786,7 @@ func genC20(c *Ctx) {
 	for rep := 0; rep < 2*reps; rep++ {
 		case20{fam: "addr", arg: sx.Nat(0), val: sx.L(sx.A("none")), class: "addr|none"}.run(c, nMut)
 		for _, n := range []int{0, 1, 3, 4, 8, 255, 256, 257, 511, r.Intn(512)} {
-			k := case20{fam: "addr", arg: sx.Nat(0), val: sx.L(sx.A("ext"), sx.Bits(randBits(r, n))), class: "addr|ext|" + lenBucket20(n)}
+			k := case20{fam: "addr", arg: sx.Nat(r.Intn(5)), val: sx.L(sx.A("ext"), sx.Bits(randBits(r, n))), class: "addr|ext|" + lenBucket20(n)}
 			if n == 0 {
 				k.finding = "addr-extern-empty"
 			}
@@ -672,12 +799,22 @@ func genC20(c *Ctx) {
 		for _, n := range []int{0, 1, 4, 7, 8, 252, 255, 256, 256, 256, 257, 260, 511, r.Intn(512)} {
 			wc := wcVar[r.Intn(len(wcVar))]
 			a := anys()
-			k := case20{fam: "addr", arg: sx.Nat(0), val: sx.L(sx.A("var"), a, sx.Nat(n), sx.Z(wc), sx.Bits(randBits(r, n))), class: "addr|var|" + lenBucket20(n)}
+			k := case20{fam: "addr", arg: sx.Nat(r.Intn(5)), val: sx.L(sx.A("var"), a, sx.Nat(n), sx.Z(wc), sx.Bits(randBits(r, n))), class: "addr|var|" + lenBucket20(n)}
 			if n == 256 && wc >= -128 && wc <= 127 {
 				k.excluded = true
 				k.class = "addr|var|excluded-std-text"
 			}
 			k.run(c, nMut)
+		}
+	}
+	// addresses holding writer-built bit strings with free bits left
+	for rep := 0; rep < reps; rep++ {
+		for _, n := range []int{1, 2, 3, 5, 6, 7, 9, 255, 257, 509, 510, 511} {
+			for free := 0; free <= 4; free++ {
+				case20{fam: "addr", arg: sx.Nat(free), val: sx.L(sx.A("ext"), sx.Bits(randBits(r, n))), class: "addr|ext|writer"}.run(c, 1)
+				wc := wcVar[r.Intn(len(wcVar))]
+				case20{fam: "addr", arg: sx.Nat(free), val: sx.L(sx.A("var"), anys(), sx.Nat(n), sx.Z(wc), sx.Bits(randBits(r, n))), class: "addr|var|writer"}.run(c, 1)
+			}
 		}
 	}
 	h64 := hex.EncodeToString(r.Bytes(32))
@@ -736,6 +873,44 @@ func genC20(c *Ctx) {
 			k.hand(c, "\""+hex.EncodeToString(one)+"\"")
 		}
 	}
+	// cells written through the public writers, lengths 1010..1023 of the 1023 available
+	for rep := 0; rep < reps; rep++ {
+		for n := 1010; n <= 1023; n++ {
+			cell := boc.NewCell()
+			bits := randBits(r, n)
+			nb := n / 8
+			if nb > 0 && rep%2 == 0 {
+				buf := make([]byte, nb)
+				for j := 0; j < nb*8; j++ {
+					if bits[j] == '1' {
+						buf[j/8] |= 0x80 >> uint(j%8)
+					}
+				}
+				_ = cell.WriteBytes(buf)
+			} else {
+				nb = 0
+			}
+			for j := nb * 8; j < n; {
+				w := minInt(1+r.Intn(64), n-j)
+				var v uint64
+				for t := 0; t < w; t++ {
+					v = v<<1 | uint64(bits[j+t]-'0')
+				}
+				_ = cell.WriteUint(v, w)
+				j += w
+			}
+			if r.Bool() {
+				ch := boc.NewCell()
+				_ = ch.WriteUint(r.U64(), 1+r.Intn(64))
+				_ = cell.AddRef(ch)
+			}
+			b, err := cell.ToBoc()
+			if err != nil || cell.BitSize() != n {
+				continue
+			}
+			case20{fam: "cell", arg: sx.Nat(n % 2), val: sx.Bytes(b), class: "cell|writer"}.runCell(c, 1, cell)
+		}
+	}
 	case20{fam: "cell", arg: sx.Nat(0), class: "cell"}.hand(c, append([]string{"\"b5ee9c72\"", "\"b5ee9c7201\"", "\"b5ee9c72010101010002000000\"", "\"B5EE9C72010101010002000000\"", "\"b5ee9c7201010101000200000\"", "\"b5ee9c720101010100020000000\"", "\"b5ee9c72010102010002000000\"", "b5ee9c72010101010002000000"}, commonDocs20...)...)
 
 	// ---- Maybe[T] over several inner families
@@ -753,6 +928,8 @@ func genC20(c *Ctx) {
 		{"coins", sx.Nat(0), func() sx.V { return sx.BigZ(randBig20(r, 63, true)) }},
 		{"bits", sx.Nat(32), func() sx.V { return sx.Bytes(randBytes20(r, 32)) }},
 		{"bitstring", sx.Nat(0), func() sx.V { return sx.Bits(randBits(r, r.Intn(300))) }},
+		{"bitstring", sx.Nat(2), func() sx.V { return sx.Bits(randBits(r, 1+4*r.Intn(60))) }},
+		{"addr", sx.Nat(1), func() sx.V { return sx.L(sx.A("ext"), sx.Bits(randBits(r, 2+4*r.Intn(60)))) }},
 		{"addr", sx.Nat(0), func() sx.V {
 			return sx.L(sx.A("std"), anys(), sx.Z(int8s[r.Intn(len(int8s))]), sx.Bytes(randBytes20(r, 32)))
 		}},
@@ -783,8 +960,14 @@ func genC20(c *Ctx) {
 // and the Go-side oracle compares representation hashes.
 func (k case20) runCell(c *Ctx, nMut int, root *boc.Cell) {
 	r := c.R
+	if tooManyHangs20() {
+		return
+	}
 	in := k.in(k.val)
 	out := c.Emit("c20.print", in, k.class+"|print")
+	if hang20(c, "c20.print", in, "cell", out) {
+		return
+	}
 	if out.K != sx.KBytes {
 		c.Fail("c20.print", in, "marshal-error-cell", "json.Marshal failed on a cell: "+out.String())
 		return
@@ -792,6 +975,17 @@ func (k case20) runCell(c *Ctx, nMut int, root *boc.Cell) {
 	doc := out.Bytes
 	if !json.Valid(doc) {
 		c.Fail("c20.print", in, "invalid-json-cell", "MarshalJSON output is not valid JSON")
+	}
+	// the cell as the application built it (not the re-parsed one) prints the same text
+	direct := watchdog20(func() sx.V {
+		b, err := json.Marshal(*root)
+		if err != nil {
+			return sx.A("err")
+		}
+		return sx.Bytes(b)
+	})
+	if !hang20(c, "c20.print", in, "cell", direct) && direct.String() != out.String() {
+		c.Fail("c20.print", in, "roundtrip-cell", "the writer-built cell and its re-parsed copy marshal differently")
 	}
 	want := cellToSx20(root)
 	for _, kind := range []string{"c20.parse", "c20.method"} {
